@@ -99,11 +99,21 @@ type Config struct {
 	BrokerInit        bool
 	HugeExp           bool // Expiration = the largest Duration ("never expire"); ticks stay relative to one second
 	ViaController     bool // Close is issued through one long-lived eventlogger.NodeController wrapped around the filter
+	ClockBase         int  `json:",omitempty"` // where the harness clock starts: 0 = 2026, 1 = 1.2 s before int64 nanoseconds since 1970 overflow (2262-04-11T23:47:16.85Z), 2 = 1.2 s before they underflow (1677-09-21), 3 = year 1, 4 = 1969-12-31T23:59:59
+}
+
+// ClockBases are the starting instants of the harness clock; the histories move it forward by fractions of the expiration.
+var ClockBases = []time.Time{
+	time.Date(2026, 1, 1, 0, 0, 0, 0, time.UTC),
+	time.Unix(0, math.MaxInt64).UTC().Add(-1200 * time.Millisecond),
+	time.Unix(0, math.MinInt64).UTC().Add(-1200 * time.Millisecond),
+	time.Date(1, 1, 1, 0, 0, 1, 0, time.UTC),
+	time.Date(1969, 12, 31, 23, 59, 59, 0, time.UTC),
 }
 
 func Describe(cfg Config, ops []Op) string {
 	var sb strings.Builder
-	fmt.Fprintf(&sb, "cfg{defaultExp=%v broker=%v hugeExp=%v closeViaController=%v}", cfg.DefaultExpiration, cfg.BrokerInit, cfg.HugeExp, cfg.ViaController)
+	fmt.Fprintf(&sb, "cfg{defaultExp=%v broker=%v hugeExp=%v closeViaController=%v clockStart=%s}", cfg.DefaultExpiration, cfg.BrokerInit, cfg.HugeExp, cfg.ViaController, ClockBases[cfg.ClockBase%len(ClockBases)].Format(time.RFC3339Nano))
 	for _, o := range ops {
 		sb.WriteByte(' ')
 		sb.WriteString(o.String())
@@ -254,13 +264,13 @@ type plain struct{ tok int }
 var base = time.Date(2026, 1, 1, 0, 0, 0, 0, time.UTC)
 
 // IDs used by probes.
-var ProbeIDs = []string{"a", "b", "c"}
+var ProbeIDs = []string{"a", "b", "c", "a ", " a", "A", "a\n"}
 
 // Run executes a history against a fresh gated.Filter.
 func Run(cfg Config, ops []Op) *Obs {
 	r := &rec{}
 	snd := &sender{r: r}
-	now := base
+	now := ClockBases[cfg.ClockBase%len(ClockBases)]
 	f := &gated.Filter{NowFunc: func() time.Time { return now }}
 	exp := gated.DefaultEventTimeout
 	if !cfg.DefaultExpiration {
